@@ -414,7 +414,9 @@ def check(prog, rep):
                 % (kerns['numpy'].qualname, kerns['dask'].qualname), pub.node.lineno,
                 kerns['numpy'] is kerns['dask'], 'both backends must run the same per-cell kernel')
         bandparams = [p for p in pub.params if p.endswith('_agg')]
-        check_validate(prog, rep, pub, bandparams)
+        scope = paths['numpy'].scope
+        # validation moved into a small helper together with the dispatch: read the inlined view
+        check_validate(prog, rep, scope if getattr(scope, 'inlined_from', None) is pub else pub, bandparams)
     from ..sharedrules import check_validate_arrays
     check_validate_arrays(prog, rep, 'M6-helper', 'validate_arrays')
     check_true_color(prog, rep)
